@@ -72,7 +72,7 @@ def register(m):
       "        rhs = Add(*(v * (-1 * s / scale) for v, s in combination_rhs))\n        return Eq(atomic, rhs)",
       "        terms = [v * (-1 * s / scale) for v, s in combination_rhs]\n        return Eq(atomic, Add(*terms))", "SILENT")
     # C18: log printer with explicit branches
-    m("C18", "rf-latex-sum-braced-index", PL, "        return f\"\\\\sum_{self._print(index)} {self._print(arg)}\"", "        index_tex = self._print(index)\n        return f\"\\\\sum_{index_tex} {self._print(arg)}\"", "SILENT")
+    m("C18", "rf-latex-sum-braced-index", PL, "        return f\"\\\\sum_{self._print(index)} {self.parenthesize(arg, PRECEDENCE['Mul'])}\"", "        index_tex = self._print(index)\n        return f\"\\\\sum_{index_tex} {self.parenthesize(arg, PRECEDENCE['Mul'])}\"", "SILENT")
     # C11: transformation table entries bound to names first
     m("C11", "rf-transformation-named-entries", CS, "", "", "SILENT") if False else None
     # C20: a constant written through an intermediate module-level value
